@@ -102,7 +102,14 @@ fn run(ctx: &RunCtx) -> Report {
             let reply: Vec<u8> = if is_put && roll < 6 {
                 // error codes, including 301/302 for writes that cannot conflict
                 let code = *hr.pick(&[301i64, 302, 301, 302, 203, 205, 206, 207, 201, 0, -1, 2147483648, 999]);
-                krpc::error(&msg.tid, code, "scripted", &opts)
+                // half of them with a description that is long, multi-byte around typical cut points, or not UTF-8
+                if hr.chance(1, 2) {
+                    krpc::error_bytes(&msg.tid, code, &crate::hostile::bomb_text(&mut hr), &opts)
+                } else {
+                    krpc::error(&msg.tid, code, "scripted", &opts)
+                }
+            } else if !is_put && roll == 9 && hr.chance(1, 2) {
+                krpc::error_bytes(&msg.tid, *hr.pick(&[201i64, 202, 203, 204]), &crate::hostile::bomb_text(&mut hr), &opts)
             } else if roll < 7 {
                 // a different kind of reply with the right tid
                 let id = sh.peers[idx].id;
@@ -263,7 +270,15 @@ fn run(ctx: &RunCtx) -> Report {
         let storm_src = SocketAddrV4::new(priv_ip(4100), 4100);
         let (_, slog) = logging_raw(&sim, storm_src);
         let ih = rng.id();
-        let n = if rng.chance(2, 3) { *rng.pick(&[18usize, 19, 20, 21, 22]) } else { rng.usize(1, 45) };
+        // (also long storms: a store may size internal buffers on the first read and outgrow them later)
+        let n = match rng.below(6) {
+            0..=2 => *rng.pick(&[18usize, 19, 20, 21, 22]),
+            3 => rng.usize(1, 45),
+            4 => rng.usize(60, 130),
+            _ => rng.usize(130, 260),
+        };
+        // reads after every announce, or only every k-th (so that the list grows between two reads)
+        let read_every = *rng.pick(&[1usize, 1, 2, 7, 20, 33]);
         let t1 = t_start + rng.range(0, span / MS / 2 + 1) * MS;
         let srv = sim.node_addr(server);
         let my_id = rng.id();
@@ -271,12 +286,14 @@ fn run(ctx: &RunCtx) -> Report {
         let ids: Vec<krpc::Id> = (0..n).map(|_| rng.id()).collect();
         for (j, rid) in ids.into_iter().enumerate() {
             let slog = slog.clone();
-            let at = t1 + 500 * MS + j as u64 * 30 * MS;
+            let at = t1 + 500 * MS + j as u64 * if n > 60 { 8 } else { 30 } * MS;
             sim.at(at, move |sim| {
                 let token = slog.borrow().iter().filter_map(|(_, _, b)| Krpc::parse(b)).filter_map(|k| k.token().map(|t| t.to_vec())).next_back();
                 if let Some(token) = token {
                     sim.raw_send(storm_src, srv, krpc::query(&krpc::tid_bytes(9100 + j as u32), "announce_peer", krpc::announce_peer_args(&rid, &ih, 1000 + j as u16, None, &token), &MsgOpts::default()));
-                    sim.raw_send(storm_src, srv, krpc::query(&krpc::tid_bytes(9500 + j as u32), "get_peers", krpc::get_peers_args(&rid, &ih), &MsgOpts::default()));
+                    if j % read_every == read_every - 1 || j + 1 == n {
+                        sim.raw_send(storm_src, srv, krpc::query(&krpc::tid_bytes(9500 + j as u32), "get_peers", krpc::get_peers_args(&rid, &ih), &MsgOpts::default()));
+                    }
                 }
             });
         }
